@@ -132,6 +132,18 @@ PROPS["C10"] = {
     "assumptions": ["only forward clock steps", "sequential requests (the property quantifies over histories, not schedules; C09 covers concurrency)"],
 }
 
+PROPS["C11"] = {
+    "harness": "rrsim", "test": "TestC11", "quick_s": 30, "thorough_s": 900, "batch": 50,
+    "rule": "one evaluation = one simulated history of 1-3 client sessions against the real RoundRobin/Rebalancer with sticky sessions: drawn cookie codec (raw, hash with salt, AES-128/192/256 with and without ttl, fallback chains of depth up to 2), "
+            "1-5 server URLs (port, userinfo, query, escaped and multi-byte paths; special classes ';' in the URL and '|' in the query), 4-60 operations: requests (the client stores and returns cookies the way net/http parses and writes them), "
+            "cookie corruption faults (truncate, bit flip, base64 alphabet, case, append, empty, minted under another key/salt, dropped), pool changes (remove, re-add, re-weight incl. 0), clock advances around the ttl; "
+            "oracle = per-session model (server the cookie was issued for, mint time); non-trivial = at least two pinned requests and one rebalanced one; distinct = hash of the reached-server sequence",
+    "technique": "deterministic simulation: seeded session histories with stored-cookie corruption faults, pool changes and clock advances against the real sticky-session code; per-session reference model",
+    "level_text": "seeded search over codecs, URL forms, cookie corruptions, pool changes and clock steps; sampled, not exhaustive",
+    "level_note": RR_NOTE + "; expiry within one second of the boundary accepts both outcomes; an altered cookie that is accepted is from then on required to keep naming the same member",
+    "assumptions": ["only forward clock steps", "the client is a well-behaved HTTP client (cookie values pass through net/http's Set-Cookie writer and Cookie parser)"],
+}
+
 PENDING = "check not built yet in this session (planned, see DESIGN.md section 4); not claimed until its harness exists"
 NOT_APPLICABLE = {pid: PENDING for pid in ["C%02d" % i for i in range(1, 21)]}
 NOT_APPLICABLE["C19"] = ("pure function of one request's RemoteAddr/Host/header to a token: no schedule, clock, fault, I/O or multi-party behaviour for a "
